@@ -81,6 +81,11 @@ CHECKS = {
         technique="TLA+ model of send / receive / ACK tick / drop / reconnect (Offsets.tla) model-checked by TLC (the pre-fix arithmetic kept as a deviation switch that TLC refutes); complete real-time Sync() runs between a scripted source and a model Redis, with source events, the tool's recv/ack hook events and the target's checkpoints in one sequence validated by TLC (OffsetsTrace.tla)",
         text="TLC checks ack exactness / monotonicity / never-ahead / exact reconnect / no gap no duplicate for all interleavings at small bounds; the binding is end-to-end: the real DbSyncer.Sync() (checkpoint load, PSYNC, full sync, incremental sync with resume, ACK goroutine, reconnect loop) runs against fakesrc with bursts, idle periods spanning several ACK ticks, drops at and inside command boundaries, start offsets up to 2^40 and starts from a stored checkpoint; TLC judges every ACK, every re-PSYNC offset, the quiescent ACK, the checkpoint offsets and exactly-once application.",
         note="Real wall-clock tick periods (5-9 s per run; 8 runs quick, 48 thorough, parallel processes); refused re-PSYNC (30 s back-off) only in the thorough tier; offsets are compared relative to the start offset because TLC integers are 32 bit."),
+    "C19": dict(
+        level="exploration", design="DESIGN.md 4/C19",
+        technique="TLA+ information-flow policy (Flows.tla) evaluated by TLC over the emissions recorded from real runs of the other families' scenarios with distinct sentinel credentials and the logger at debug level",
+        text="The property quantifies over the run paths exercised; this check re-runs a complete Sync() (checkpoint load, full sync, incremental sync, drop + reconnect), full sync / restore / entry restore / incremental filter scenarios, an incremental cut + restart, checkpoint load and the slot supervisor with sentinel values in all four credential fields, reduces every log line (all levels) and the configuration echo / REST metric / syncer status documents to (sink, sentinel fields present) and lets TLC evaluate the policy; all other checks additionally scan their own log output.",
+        note="Coverage = exercised paths (not a proof about all log statements); TLA+ only evaluates the policy; rump's driver scans its own log."),
 }
 
 NOT_YET = "check not built yet in this session (work in progress; see DESIGN.md section 7 for the order)"
